@@ -403,8 +403,14 @@ def suites(tier):
 
 def extra_checks(tier):
     _, py_fail, keys = build(tier)
+    from props import c09
+    # the datagram servers answer the PEER a datagram came from, also when two peers' datagrams are queued before the
+    # serving coroutine runs (sync and Twisted UDP handle one datagram per call; asyncio must pair them all the same)
+    bu = c09.udp_burst(tier, common.rng("C17.udp.burst"))
+    bu["keys"] = [repr(k) for k in bu["keys"]]
     return {"conn_private": {"evaluations": len(keys), "failures": py_fail, "broken": [], "samples": py_fail[:2],
-                             "keys": [repr(k) for k in keys]}}
+                             "keys": [repr(k) for k in keys]},
+            "udp-burst": bu}
 
 
 def classify(suite, desc):
@@ -526,6 +532,9 @@ def replay_case(suite, desc):
     if suite == "watchdog":
         from props.c12 import replay_hang
         return replay_hang("c17", desc)
+    if suite == "udp-burst":
+        from props import c09
+        return bool(c09.replay_case("udp-sender-isolation", desc))
     if "conns" not in desc:
         return True
     conns = [[(bytes.fromhex(c), [bytes.fromhex(f) for f in d]) for c, d in zip(ch, dn)]
